@@ -249,7 +249,7 @@ def check_size(prog: Program, res: Result) -> None:
     ww = ("abs(bboxes[0,1,0]-bboxes[0,0,0])+1", "abs(bboxes[0,2,0]-bboxes[0,3,0])+1", "abs(bboxes[0,0,0]-bboxes[0,1,0])+1")
     ok = any(f"({h_},{w_})" in szx for h_ in hh for w_ in ww)
     res.ob(R, ok, cb.qualname, "crop_bboxes size = (box height + 1, box width + 1)", f"crop_bboxes derives its size as {d.get('box_size')}", cb.where)
-    res.floor(R, 5)
+    res.floor(R, 3)
 
 
 def _kornia_intensity_classes() -> Dict[str, str]:
